@@ -6,10 +6,10 @@ import vlib
 
 def run(ctx):
     vlib.cargo_build(ctx)
-    r = vlib.tlc(ctx, "Schemas.tla", "Schemas.cfg", "schemas", workers=1, env={"JAVA_TOOL_OPTIONS": "-Xss64m"}, timeout=1800)
+    r = vlib.tlc(ctx, "Schemas.tla", "Schemas.cfg" if ctx.tier == "quick" else "Schemas_t.cfg", "schemas", workers=1, env={"JAVA_TOOL_OPTIONS": "-Xss64m"}, timeout=1800)
     if not r["ok"]:
         raise vlib.ToolError(f"TLC failed on Schemas.tla (schema well-formedness?): {r['errors'][:2]}")
-    s = vlib.harness(ctx, "schema_replay", [r["out"]], env={"VERIF_VARIATIONS": "2" if ctx.tier == "quick" else "20"}, timeout=3600)
+    s = vlib.harness(ctx, "schema_replay", [r["out"]], env={"VERIF_VARIATIONS": "2" if ctx.tier == "quick" else "6"}, timeout=3600)
     os.remove(r["out"])
     v = s["extra"]["verdicts"]
     if sum(v.values()) < 1500 or not all(any(k.startswith(n + ":reject") for k in v) for n in ("component", "composite", "plan", "layer", "launch", "store", "package")):
@@ -20,7 +20,7 @@ def run(ctx):
     ctx.cov["verdicts"] = v
     ctx.assumptions += [
         "the formats are transcribed from the CNB specification text into Schemas.tla; instances are the minimal document, the full document, "
-        "the minimal plus each optional part and the full minus each optional part (arrays of tables with one element)",
+        "the minimal plus each optional part and the full minus each optional part (thorough tier: plus / minus every pair of optional parts; arrays of tables with one element)",
         "don't-care: store.toml without [metadata]; [platform] without os in package.toml; deleting name/version of targets.distros",
         "documents are rendered by the harness's own emitter in several equivalent notations (inline tables, headers, literal / multi-line strings)",
     ]
